@@ -26,6 +26,35 @@ PROTO = "sd.ServiceDiscoveryProtocol"
 EG = "config.Eventgroup"
 
 
+def requested_set_callers(run, prog, scan, rule):
+    """"the eventgroups currently requested" are requested by the application: inside the package the two operations that
+    change the set are called only by the auto-subscribe listener (which turns offered / stopped into subscribe /
+    stop-subscribe on the application's behalf).  Anything else that calls them - a handler of received entries, a timer -
+    changes what is *requested* because of what a *peer* said: the subscriber then stops asking for (or starts asking
+    for) something the application never withdrew (requested)."""
+    allowed = {"sd.AutoSubscribeServiceListener"}
+    bad = []
+    for name in ("subscribe_eventgroup", "stop_subscribe_eventgroup"):
+        fn = prog.lookup_method(SUBS, name)
+        if fn is None:
+            raise AnalysisError(f"{SUBS}.{name} vanished")
+        for cfi, _r, e in scan.callers_of(fn.qual):
+            owner = cfi.cls.qual if cfi.cls is not None else cfi.module.short
+            if owner not in allowed:
+                bad.append((cfi, e, name))
+    seen = set()
+    for cfi, e, name in bad:
+        if (cfi.qual, name) in seen:
+            continue
+        seen.add((cfi.qual, name))
+        run.ob(rule, f"{cfi.qual}:changes-the-requested-set[{name}]", False, loc(cfi, e.node),
+               f"{cfi.qual} calls {name}: the requested set is changed from inside the stack (not by the application / its auto-subscribe "
+               "listener) - a subscription the application still wants is forgotten, or one it dropped is revived")
+    if not bad:
+        run.ob(rule, f"{SUBS}:requested-set-changed-only-on-request", True, loc(prog.lookup_method(SUBS, "subscribe_eventgroup")),
+               "inside the package only the auto-subscribe listener calls subscribe_eventgroup / stop_subscribe_eventgroup")
+
+
 def check(run, prog, tier):
     run.explanation = (
         "Order of Subscribe and StopSubscribe on the wire equals the order of the calls iff all three public "
@@ -139,6 +168,7 @@ def check(run, prog, tier):
             writers.setdefault(tgt, set()).add(op)
     want_w = {m["subscribe_eventgroup"].qual: {"append"}, m["stop_subscribe_eventgroup"].qual: {"remove"}}
     run.ob("M2", f"{SUBS}:who-changes-the-requested-set", writers == want_w, loc(m["subscribe_eventgroup"]), f"requested set is changed by {({k: sorted(v) for k, v in writers.items()})}")
+    requested_set_callers(run, prog, scan, "M2")
     e0 = engine(prog, NoInline())
     # subscribe: stores (eventgroup, endpoint); sends only while alive, to that endpoint, that eventgroup
     se = m["subscribe_eventgroup"]
